@@ -119,6 +119,61 @@ Definition to_xgboost_input (tf : tframe) : option (block * option (list val) * 
          end
   end.
 
+(* ---------------------------------------------------------------- XGBoost, with the float32 casts as written *)
+(* int64 -> float32 (Tensor.to(torch.float32), and the dtype promotion of torch.cat):
+   round to nearest, ties to even, 24-bit significand.  Exponent overflow is not
+   modelled (|z| < 2^127 for every int64). *)
+Definition f32_of_Z (z : Z) : Z :=
+  let a := Z.abs z in
+  let e := (Z.log2 a - 23)%Z in                          (* bits beyond the significand *)
+  if (e <=? 0)%Z then z
+  else
+    let q := Z.shiftr a e in
+    let r := (a mod 2 ^ e)%Z in
+    let half := (2 ^ (e - 1))%Z in
+    let q' := if (half <? r)%Z || ((r =? half)%Z && Z.odd q) then (q + 1)%Z else q in
+    (Z.sgn z * (q' * 2 ^ e))%Z.
+
+(* the categorical block as the XGBoost adapter really emits it:
+   - neg_to_nan converts the whole block to float32 iff it contains a -1;
+   - torch.cat promotes: with a float64 block everything becomes float64 (int64 exact
+     below 2^53), else with a float32 block the int64 block is cast to float32. *)
+Definition cat_block_f32 (has_f32_block has_f64_block : bool) (rows : list (list Z)) : block :=
+  let has_m1 := existsb (existsb (Z.eqb (-1))) rows in
+  let cast (z : Z) : Z :=
+    if has_m1 then f32_of_Z z
+    else if has_f64_block then z
+    else if has_f32_block then f32_of_Z z
+    else z in
+  map (map (fun z => if has_m1 && (z =? -1)%Z then None else Some (inject_Z (cast z)))) rows.
+
+(* _to_xgboost_input with an arbitrary treatment of the categorical block *)
+Definition to_xgboost_input_gen (conv : list (list Z) -> block) (tf : tframe)
+  : option (block * option (list val) * list ftype) :=
+  let y := tf_y tf in
+  let feats :=
+    olist (option_map (fun c => conv (f_rows c)) (tf_cat tf)) ++
+    olist (option_map (fun n => f_rows n) (tf_num tf)) ++
+    olist (option_map emb_values (tf_emb tf)) in
+  let types :=
+    match tf_cat tf with Some c => repeat FC (f_names c) | None => [] end ++
+    match tf_num tf with Some n => repeat FQ (f_names n) | None => [] end ++
+    match tf_emb tf with Some e => repeat FQ (emb_width e) | None => [] end in
+  match feats with
+  | [] => None
+  | _ => match hcat feats with
+         | Some m => Some (m, y, types)
+         | None => None
+         end
+  end.
+
+(* num_is_f64: the numerical block is float64 (the embedding block is float32) *)
+Definition to_xgboost_input_f32 (num_is_f64 : bool) (tf : tframe) :=
+  let has_f64 := match tf_num tf with Some _ => num_is_f64 | None => false end in
+  let has_f32 := match tf_num tf with Some _ => negb num_is_f64 | None => false end
+                 || match tf_emb tf with Some _ => true | None => false end in
+  to_xgboost_input_gen (cat_block_f32 has_f32 has_f64) tf.
+
 (* ---------------------------------------------------------------- CatBoost / LightGBM *)
 (* the returned DataFrame: column labels and rows *)
 Record dframe := { d_columns : list nat; d_rows : block }.
